@@ -1,4 +1,4 @@
 SPECIFICATION Spec
-CONSTANTS MaxLen = 4 CopyOnCompute = TRUE
+CONSTANTS MaxLen = 4 CopyOnCompute = "each"
 INVARIANT Emitted
 CHECK_DEADLOCK FALSE
